@@ -587,7 +587,7 @@ def send(fd, obj):
 def serve(rfd, wfd, repo, extra_mixins=()):
     """Command loop of a node.  Never returns normally; ends with os._exit."""
     faulthandler.enable()
-    faulthandler.dump_traceback_later(60, exit=True)
+    faulthandler.dump_traceback_later(180, exit=True)
     try:
         node = make_node(repo)
         send(wfd, ("ready", None))
@@ -601,7 +601,7 @@ def serve(rfd, wfd, repo, extra_mixins=()):
             cmd = recv(rfd)
         except EOFError:
             os._exit(0)
-        faulthandler.dump_traceback_later(60, exit=True)
+        faulthandler.dump_traceback_later(180, exit=True)
         op = cmd[0]
         try:
             if op == "quit":
